@@ -60,7 +60,7 @@ CHECKS = {
  "C17": ("exploration", SEQ + "Stat recomputed at every step by scanning the files with the package's own reader; size-limit rule per file; 15% of the runs: concurrent clients under the seeded scheduler, Stat recomputed at quiescence and after the restart",
          "Histories with overwrites, deletes, batches, rotations, merges, restarts; interleavings of racing writers, deleters, batches and a merge.",
          TB, "DESIGN.md 4 C17"),
- "C18": ("exploration", SEQ + "after every successful Merge the hint file is decoded and compared entry by entry with a scan of the merged files; hint-path Open vs scan-path Open on copies",
+ "C18": ("exploration", SEQ + "after every successful Merge the hint file is decoded and compared entry by entry with a scan of the merged files; hint-path Open vs scan-path Open on copies; a fifth of the runs: the merge races concurrent writers under the seeded scheduler",
          "Merges x configurations x both I/O types x multi-file outputs.",
          TB, "DESIGN.md 4 C18"),
  "C19": ("exploration", SEQ + "data-type layer under the simulated clock (TTL boundaries hit at expiry-1ns/expiry/expiry+1ns) with restarts; normalised replies vs an abstract-type model",
